@@ -7,7 +7,13 @@ import (
 
 // RandomTimeout generates a random duration between the provided min and max durations.
 func RandomTimeout(min time.Duration, max time.Duration) time.Duration {
-	n := rand.Int63n(max.Milliseconds()-min.Milliseconds()) + min.Milliseconds()
+	// The durations are truncated to milliseconds, so the range may be empty
+	// even if max is greater than min.
+	span := max.Milliseconds() - min.Milliseconds()
+	if span <= 0 {
+		return time.Duration(min.Milliseconds())
+	}
+	n := rand.Int63n(span) + min.Milliseconds()
 	return time.Duration(n)
 }
 
